@@ -10,6 +10,9 @@ pub mod c22;
 pub mod c34;
 pub mod c29;
 pub mod c30;
+pub mod c05;
+pub mod c07;
+pub mod c31;
 
 pub fn for_property(p: &str) -> Vec<Suite> {
     match p {
@@ -25,10 +28,6 @@ pub fn for_property(p: &str) -> Vec<Suite> {
         "C34" => c34::suites(),
         "C29" => c29::suites(),
         "C30" => c30::suites(),
-pub mod c05;
-pub mod c07;
-pub mod c31;
-
         "C05" => c05::suites(),
         "C07" => c07::suites(),
         "C31" => c31::suites(),
